@@ -78,6 +78,14 @@ func (t *tfunc) cmp(v *ast.BinaryExpr, op token.Token) string {
 			other = v.Y
 		}
 		if other != nil {
+			if path, ok := t.recvPath(other); ok && path != "" {
+				if op := t.okey[path+" == nil"]; op != nil {
+					if op2 := sym; op2 == " = " {
+						return t.use(op.name) + " = true"
+					}
+					return t.use(op.name) + " = false"
+				}
+			}
 			ot := typeOf(t.pi, other)
 			lt := t.g.leanType(ot)
 			o := t.expr(other, nil)
